@@ -88,6 +88,10 @@ def ours(draw):
         'host_len': draw(st.sampled_from([0, 3, 3, 60, 200, 255])),
         'domain_len': draw(st.sampled_from([0, 5, 5, 120, 255])),
         'router_id': draw(st.sampled_from(['1.2.3.4', '10.0.0.1', '255.255.255.254'])),
+        # rarely used settings: each is one capability code in our OPEN, there or not
+        'multi_session': draw(st.sampled_from([False, False, False, True])),
+        'operational': draw(st.sampled_from([False, False, False, True])),
+        'software_version': draw(st.sampled_from([False, False, False, True])),
     }
 
 
@@ -130,6 +134,9 @@ def theirs(draw, our):
         caps.append(['unknown', draw(st.sampled_from(UNKNOWN_CODES)), draw(st.binary(max_size=60)).hex()])
     if draw(st.integers(0, 3)) == 0:
         caps.append(['unknown', draw(st.sampled_from(PRESTANDARD_CODES)), ''])
+    if our.get('multi_session') and draw(st.integers(0, 2)) > 0:
+        # the draft's capability: a flags octet, then the capability codes that identify a session (we send: MULTIPROTOCOL)
+        caps.append(['unknown', 0x44, draw(st.sampled_from(['0001', '0001', '00', '000141']))])
     if draw(st.integers(0, 9)) == 0:
         # push the optional parameters past 255 bytes
         for _ in range(draw(st.integers(2, 5))):
@@ -241,9 +248,9 @@ def config_text(o: dict) -> str:
         'route-refresh': 'enable' if o['refresh'] else 'disable',
         'extended-message': 'enable' if o['ext_msg'] else 'disable',
         'graceful-restart': 'disable' if o['gr'] is None else str(o['gr']),
-        'multi-session': 'disable',
-        'operational': 'disable',
-        'software-version': 'disable',
+        'multi-session': 'enable' if o.get('multi_session') else 'disable',
+        'operational': 'enable' if o.get('operational') else 'disable',
+        'software-version': 'enable' if o.get('software_version') else 'disable',
     }
     extra = ''
     if o['host_len']:
@@ -415,6 +422,31 @@ def check(case: dict) -> dict:
             problems.append('domainname')
     elif o['host_len']:
         problems.append('hostname capability missing')
+    # the OPEN advertises EXACTLY what the configuration enables: the set of capability codes on the wire, nothing more, nothing less
+    want_codes = {1}
+    if o['asn4']:
+        want_codes.add(65)
+    if exp_ap:
+        want_codes.add(69)
+    if exp_nh:
+        want_codes.add(5)
+    if o['refresh']:
+        want_codes |= {2, 70}
+    if o['ext_msg']:
+        want_codes.add(6)
+    if o['gr'] is not None:
+        want_codes.add(64)
+    if o['host_len'] or sem['hostname'] is not None:  # (a domain name alone sends nothing: the capability is the host name's)
+        want_codes.add(73)
+    if o.get('multi_session'):
+        want_codes.add(0x44)
+    if o.get('operational'):
+        want_codes.add(0xB9)
+    if o.get('software_version'):
+        want_codes.add(0x4B)
+    got_codes = {code for code, _ in d['caps']}
+    if got_codes != want_codes and not problems:
+        problems.append(f'codes on the wire {sorted(got_codes)} for a configuration that enables {sorted(want_codes)}')
     if problems:
         raise Violation('our-open:advertises:' + problems[0].split(' ')[0], '; '.join(problems))
 
@@ -470,6 +502,10 @@ def check(case: dict) -> dict:
             raise Violation(f'refusal:wrong-code:{p["fault"] or "peer-as"}', f'{refused} not in {expected}')
         return {'nontrivial': True, 'classes': classes}
 
+    if refused is not None and o.get('multi_session') and refused in ((2, 8), (2, 9)):
+        # `multi-session enable` makes the capability mandatory for the peer (ExaBGP's documented reading of the draft): a peer
+        # that does not offer it, or offers another session identifier, is turned away - nothing the RFCs settle either way
+        return {'nontrivial': False, 'classes': classes + ['multi-session-mandatory:peer-refused']}
     if refused is not None:
         raise Violation(f'refusal:spurious:{refused[0]}/{refused[1]}', f'valid OPEN {body.hex()} refused')
 
